@@ -870,3 +870,22 @@ void h_add_files(void) {
   ldb_versions_add_files(&g_vset, &g_live);
   CANARY();
 }
+
+/* ---- newest_first: the order handed to ldb_vector_sort is "larger file number first" ---- */
+int c_newest_first(void *x, void *y)
+__CPROVER_requires(x == g_fmp[0][0] && y == g_fmp[0][1])
+__CPROVER_assigns()
+__CPROVER_ensures(__CPROVER_return_value == (g_num[0][0] > g_num[0][1] ? -1 : g_num[0][0] < g_num[0][1] ? 1 : 0))
+;
+void h_newest_first(void) {
+  mk_version(); mk_level(0, 2);
+  newest_first(g_fmp[0][0], g_fmp[0][1]);
+  CANARY();
+}
+/* level 0 with at most one file (range filter, callback, stop), then one level-1 candidate */
+void h_for_each_l0_one(void) {
+  IN_SIZE(in_n0); IN_SIZE(in_n1);
+  ASSUME(in_n0 <= 1 && in_n1 <= 1);
+  for_each_common(in_n0, in_n1, 0, 0, 0, 0, 0);
+  CANARY();
+}
